@@ -169,8 +169,42 @@ class ImapSession:
         self.idle_tag = None
         self.sent = []  # (tag, text, vt)
         self.log = []  # human-readable transcript for witnesses
+        # view-sanity monitor (C01, always on): size of the session's view as
+        # told by the server; None = no mailbox selected
+        self.view_n = None
+        self._selecting = {}  # tag -> True for SELECT/EXAMINE in flight
+        self._closing = set()  # tags of CLOSE/UNSELECT in flight
+        self.view_errors = []
         rig.server.new_client(self.reader, self.writer)
         rig.sessions.append(self)
+
+    def _view_monitor(self, r):
+        """Every untagged EXISTS/EXPUNGE/FETCH must make sense for the view
+        this session has been told about: EXISTS never shrinks it, EXPUNGE and
+        FETCH name positions inside it."""
+        if r.kind == "num":
+            self.rig.counts["view_monitor_events"] += 1
+            if r.name == "EXISTS":
+                if self.view_n is not None and r.num < self.view_n and not self._selecting:
+                    self.view_errors.append(f"{self.name}: EXISTS {r.num} below the current view size {self.view_n}")
+                self.view_n = r.num
+            elif r.name == "EXPUNGE":
+                if self.view_n is not None and 1 <= r.num <= self.view_n:
+                    self.view_n -= 1
+                elif not self._selecting:  # (while a SELECT is in flight the data may still concern the previous mailbox)
+                    self.view_errors.append(f"{self.name}: EXPUNGE {r.num} outside the view (size {self.view_n})")
+            elif r.name == "FETCH":
+                if (self.view_n is None or not (1 <= r.num <= self.view_n)) and not self._selecting:
+                    self.view_errors.append(f"{self.name}: FETCH {r.num} outside the view (size {self.view_n})")
+        elif r.kind == "tagged":
+            if r.tag in self._selecting:
+                del self._selecting[r.tag]
+                if r.status != "OK":
+                    self.view_n = None
+            elif r.tag in self._closing:
+                self._closing.discard(r.tag)
+                if r.status == "OK":
+                    self.view_n = None
 
     # -- low level
     def feed(self, data: bytes):
@@ -193,6 +227,7 @@ class ImapSession:
             self.responses.append(r)
             self.resp_vt.append(vt)
             self.rig.counts["resp:" + (r.name or r.kind)] += 1
+            self._view_monitor(r)
             for fn in self.listeners:
                 fn(self, r)
         self.rig.counts["bytes_parsed"] = self.rig.counts.get("bytes_parsed", 0) + 0
@@ -221,6 +256,11 @@ class ImapSession:
         t0 = self.rig.loop.time()
         shown = text if isinstance(text, str) else text[:100].decode("latin-1")
         self.sent.append((tag, shown, t0))
+        verb = shown.split(None, 1)[0].upper() if shown.strip() else ""
+        if verb in ("SELECT", "EXAMINE"):
+            self._selecting[tag] = True
+        elif verb in ("CLOSE", "UNSELECT"):
+            self._closing.add(tag)
         self.log.append(f"C: {tag} {shown}")
         for fn in self.rig.on_send:
             fn(self, tag, shown)
